@@ -1,6 +1,7 @@
 import NetVerif.Model.H3Conn
 import NetVerif.Gen.C35
 import NetVerif.Proofs.Lemmas.H3Safe
+import NetVerif.Proofs.Lemmas.H3BodySpec
 /-!
 C35 — HTTP/3 stream framing never leaks bytes across frame boundaries.
 Model: `Model/H3Stream.lean` (stream.go, settings.go) and `Model/H3Conn.lean` (body.go, conn.go,
@@ -185,6 +186,47 @@ theorem read_window (s s' : St) (k : Nat) (bs : List Nat) (eof : Bool) (h : NetV
         all_goals exact ⟨hbs.1, hbs.2.1, by intro _; rw [← hbs.2.2]; exact hle⟩
       · rw [hrec.2.2 (by omega) (by omega)] at h
         cases h
+
+/-! ### End to end: a body only ever receives DATA payload bytes
+
+`H3BodySpec.dataBytes` splits a byte stream into frames the naive way with the QUIC varint model of
+C22 and concatenates the DATA payloads (unknown frames that are completely present are skipped;
+the first known non-DATA frame, malformed header or truncated unknown frame ends the body). -/
+
+open NetVerif.Proofs.H3BodySpec in
+/-- For every byte stream, every Content-Length state `b`, every read size `k` and any number of
+reads, the bytes handed out by `bodyReader.Read` on a stream that is between frames are a prefix of
+the concatenated DATA payloads: no byte of a frame header, of an unknown frame, of a HEADERS frame
+or of anything after the end of the body ever reaches the body. -/
+theorem body_bytes_within_data (H : Huff) (tbl : List (List Nat × List Nat)) (k fuel : Nat) (b : Body)
+    (data : List Nat) (hb : Bytes data) :
+    (bodyDrain H tbl k fuel b (St.fresh data) []).1 <+: dataBytes data := by
+  obtain ⟨out, ho, hp⟩ := bodyDrain_window H tbl k fuel b (St.fresh data) [] rfl hb
+  rw [ho]
+  simpa [window, St.fresh] using hp
+
+open NetVerif.Proofs.H3BodySpec in
+/-- The same from any live stream state, e.g. in the middle of a DATA frame (`window`). -/
+theorem body_bytes_within_window (H : Huff) (tbl : List (List Nat × List Nat)) (k fuel : Nat) (b : Body)
+    (s : St) (hd : s.dead = false) (hb : Bytes s.data) :
+    (bodyDrain H tbl k fuel b s []).1 <+: window s := by
+  obtain ⟨out, ho, hp⟩ := bodyDrain_window H tbl k fuel b s [] hd hb
+  rw [ho]; simpa using hp
+
+open NetVerif.Proofs.H3BodySpec in
+/-- Non-vacuity of the specification: an unknown frame (type 0x21) is skipped, two DATA frames
+contribute their payloads. -/
+example : dataBytes [0x21, 1, 9, 0, 2, 5, 6, 0, 1, 7] = [5, 6, 7] := by
+  rw [dataBytes_some _ [9, 0, 2, 5, 6, 0, 1, 7] 0x21 1 (by decide)]
+  simp [NetVerif.Model.H3Stream.knownFrameType]
+  rw [dataBytes_some _ [5, 6, 0, 1, 7] 0 2 (by decide)]
+  simp
+  rw [dataBytes_some _ [7] 0 1 (by decide)]
+  simp
+  rw [dataBytes]
+  split
+  · rfl
+  · rename_i h; simp [frameHeader, NetVerif.Model.VarintQuic.consumeVarint] at h
 
 /-! ### Panics
 
